@@ -19,7 +19,7 @@ def ghost_inputs(ob):
     vals = {}
     for step in ob.get('trace', []) or []:
         lhs, val = step[0], step[1]
-        if isinstance(lhs, str) and re.match(r'^(g_|w_)\w+(\[\d+l?\])?$', lhs) and val is not None:
+        if isinstance(lhs, str) and re.match(r'^(g_|w_)\w+(\[\d+l?\])?$', lhs) and val is not None and val != 'struct':
             vals[lhs.replace('l]', ']')] = val
     for k, v in (ob.get('model') or {}).items():
         vals[k] = v
